@@ -24,13 +24,7 @@ Print Assumptions C10_decode_total.
 
 Corollary C10_decode_ok_or_error : forall bytes maxArr,
   (exists d al, decode bytes maxArr = DOk d al) \/ (exists e al, decode bytes maxArr = DErr e al /\ e <> EFuel).
-Proof.
-  intros bytes maxArr. pose proof (decode_total bytes maxArr) as H.
-  destruct (decode bytes maxArr) as [d al | e al | p al].
-  - left. eauto.
-  - right. eauto.
-  - destruct H.
-Qed.
+Proof. exact decode_ok_or_error. Qed.
 Print Assumptions C10_decode_ok_or_error.
 
 (** allocation is linear in the input with explicit constants: at most 256 bytes per input byte plus 78368
